@@ -139,16 +139,18 @@ theorem modulated_samples_length {α : Type} (mod : List α) (n tr start stop : 
 `n ≥ 0` plain samples in each array and a bandwidth (`rise ≥ 1`, standard padding), without
 `extended_duration`, and with `get_duration(include_fall_time=True) ≤ n + 2·rise` (hypothesis A1
 of DESIGN §4: fall time ≤ 2·rise time, monitored), the three arrays returned by
-`sample(seq, modulation=True)` have exactly that length.  Empty channels included. -/
+`sample(seq, modulation=True)` have exactly that length.  Empty channels included: their samples
+are returned unchanged (/repo 0b0bffd1) and their duration including fall time is 0 (`hempty`,
+a fact of `_ChannelSchedule.get_duration`). -/
 theorem modulated_sampling_length {α : Type} [Zero α] (filt : List α → List α)
     (hf : ∀ l, (filt l).length = l.length) (c : ModCfg) (hc : c.filters = true) (hr : 1 ≤ c.rise)
     (hp : c.pad = c.rise) (s : CS α) (n durWithFall : Nat)
     (ha : s.amp.length = n) (hd : s.det.length = n) (hph : s.phase.length = n)
-    (hfall : durWithFall ≤ n + 2 * c.rise) :
+    (hfall : durWithFall ≤ n + 2 * c.rise) (hempty : n = 0 → durWithFall = 0) :
     ∃ r, sampleChannel filt c s true 0 durWithFall = some r ∧
       r.amp.length = durWithFall ∧ r.det.length = durWithFall ∧ r.phase.length = durWithFall :=
   ⟨_, by simp [sampleChannel],
-    csModulate_lengths filt hf c hc hr s n durWithFall ha hd hph (by rw [hp]; exact hfall)⟩
+    csModulate_lengths filt hf c hc hr s n durWithFall ha hd hph (by rw [hp]; exact hfall) hempty⟩
 
 /-- A channel without bandwidth: the arrays keep their `n` samples (fall time 0: A3). -/
 theorem modulated_sampling_length_nobw {α : Type} [Zero α] (filt : List α → List α) (c : ModCfg)
@@ -175,7 +177,7 @@ theorem modulated_sampling_length_extended {α : Type} [Zero α] (filt : List α
         phase := s.phase ++ List.replicate (E - s.amp.length) b } (some E),
       by simp [sampleChannel, hE0, extendDuration, hlt, hb], ?_⟩
     exact csModulate_lengths filt hf c hc hr _ E E (by simp [ha]; omega) (by simp [ha, hd]; omega)
-      (by simp [ha, hph]; omega) (by omega)
+      (by simp [ha, hph]; omega) (by omega) (by omega)
   | none =>
     have hnil : s.phase = [] := List.getLast?_eq_none_iff.mp hb
     have hn0 : n = 0 := by rw [← hph, hnil]; rfl
@@ -185,7 +187,7 @@ theorem modulated_sampling_length_extended {α : Type} [Zero α] (filt : List α
         phase := List.replicate (E - s.amp.length) 0 } (some E),
       by simp [sampleChannel, hE0, extendDuration, hlt, hb], ?_⟩
     exact csModulate_lengths filt hf c hc hr _ E E (by simp [ha]; omega) (by simp [ha, hd]; omega)
-      (by simp [ha, hn0]) (by omega)
+      (by simp [ha, hn0]) (by omega) (by omega)
 
 /-! ### Success -/
 
